@@ -272,7 +272,9 @@ def generate_pdf(document, target, zoom, **options):
             pdf_attachments.append(pdf_attachment)
     if pdf_attachments:
         content = pydyf.Dictionary({'Names': pydyf.Array()})
-        for i, pdf_attachment in enumerate(pdf_attachments):
+        # Name trees have to be sorted by key
+        for pdf_attachment in sorted(
+                pdf_attachments, key=lambda attachment: attachment['F'].data):
             content['Names'].append(pdf_attachment['F'])
             content['Names'].append(pdf_attachment.reference)
         pdf.add_object(content)
